@@ -66,6 +66,80 @@ Proof.
   - tauto.
 Qed.
 
+(** ---- aliases in value position ----
+    An alias node as yaml.v3 hands it out: kind alias, no content of its own, ShortTag() of its target; the target is not an
+    alias.  [sees x t]: the value node [x] stands for [t] — [x] is [t] itself (not an alias) or an alias of [t]. *)
+Definition alias_to (x t : node) : Prop :=
+  n_kind x = KAlias /\ n_alias x = Some t /\ n_content x = [] /\ n_tag x = n_tag t /\ n_alias t = None /\ n_tag x <> mergeTag /\
+  n_value x <> "".     (* Value of an alias node = the anchor name *)
+
+Definition sees (x t : node) : Prop := (x = t /\ n_alias t = None) \/ alias_to x t.
+
+Lemma sees_deref x t : sees x t -> deref x = t /\ n_alias t = None.
+Proof. unfold deref. intros [[-> H]|(_ & H & _ & _ & Ht & _)]; rewrite H; auto. Qed.
+
+Lemma node_value_deref x : node_value x = n_value (deref x).
+Proof. unfold node_value, deref. destruct (n_alias x); reflexivity. Qed.
+
+Lemma sees_tag x t : sees x t -> n_tag x = n_tag t.
+Proof. intros [[-> _]|(_ & _ & _ & H & _)]; auto. Qed.
+
+Lemma sees_value x t : sees x t -> node_value x = n_value t.
+Proof. unfold node_value. intros [[-> H]|(_ & H & _)]; now rewrite H. Qed.
+
+Lemma sees_self x : n_alias x = None -> sees x x.
+Proof. intros H. left. auto. Qed.
+
+(** parser.go resolveMapAlias(part, part) as unpackNodes applies it to a non-merge alias child: the alias node with the
+    content of its target (nothing is filtered: an alias node has no keys of its own) *)
+Definition unp (x : node) : node :=
+  match n_alias x with Some t => set_content x (n_content t) | None => x end.
+
+Lemma filter_pairs_alias part : n_kind part = KAlias -> forall l, filter_pairs part l = l.
+Proof.
+  intros K. assert (H : forall key, has_key part key = false) by (intros key; unfold has_key, node_keys; now rewrite K).
+  fix IH 1. intros [|k [|v r]]; cbn [filter_pairs]; rewrite ?H; cbn [negb]; [reflexivity|reflexivity|].
+  cbn [app]. now rewrite IH.
+Qed.
+
+Lemma resolve_self_alias x t : alias_to x t -> resolve_map_alias x x = unp x.
+Proof.
+  intros (K & A & _). unfold resolve_map_alias, unp. rewrite A. now rewrite (filter_pairs_alias x K).
+Qed.
+
+Lemma deref_unp x : deref (unp x) = deref x.
+Proof. unfold unp, deref. destruct (n_alias x) as [t|] eqn:E; [cbn [set_content n_alias]; now rewrite E|now rewrite E]. Qed.
+
+Lemma unp_view x t :
+  sees x t -> deref (unp x) = t /\ n_tag (unp x) = n_tag t /\ n_content (unp x) = n_content t /\
+              node_value (unp x) = n_value t /\ n_alias (unp x) = n_alias x.
+Proof.
+  intros [[-> H]|(K & A & C & T & Ht & _)]; unfold unp, deref, node_value.
+  - rewrite !H. auto.
+  - rewrite A. cbn [set_content n_alias n_tag n_content]. rewrite A. auto.
+Qed.
+
+(** unpackNodes on content whose keys are plain and whose values are plain or aliases: values are replaced by [unp] *)
+Lemma unpack_loop_values self : forall ps : list (node * node),
+  (forall k x, In (k, x) ps -> (n_alias k = None /\ n_tag k <> mergeTag) /\
+                               ((n_alias x = None /\ n_tag x <> mergeTag) \/ exists t, alias_to x t)) ->
+  unpack_loop self (flat_map (fun kv : node * node => [fst kv; snd kv]) ps) false =
+  flat_map (fun kv : node * node => [fst kv; unp (snd kv)]) ps.
+Proof.
+  induction ps as [|[k x] r IH]; intros H; [reflexivity|].
+  cbn [flat_map fst snd app unpack_loop].
+  destruct (H k x (or_introl eq_refl)) as [[Ka Kt] Hx].
+  assert (E : (n_tag k =? mergeTag) = false) by now apply String.eqb_neq.
+  rewrite E, Ka. cbn [andb]. f_equal.
+  specialize (IH (fun k0 x0 H0 => H k0 x0 (or_intror H0))).
+  destruct Hx as [[Xa Xt]|(t & Hal)].
+  - assert (E' : (n_tag x =? mergeTag) = false) by now apply String.eqb_neq.
+    rewrite E', Xa. cbn [andb]. unfold unp. rewrite Xa. f_equal. exact IH.
+  - pose proof Hal as (K & A & C & T & Ht & Hm & _).
+    assert (E' : (n_tag x =? mergeTag) = false) by now apply String.eqb_neq.
+    rewrite E', A. cbn [andb app]. rewrite (resolve_self_alias x t Hal). f_equal. exact IH.
+Qed.
+
 Section Prom.
   Variables str_ok int_ok null_ok : node -> bool.
   Hypothesis H_str : forall n, n_kind n = KScalar -> n_tag n <> nullTag -> str_ok n = true.
@@ -169,8 +243,32 @@ Section Prom.
     rewrite (map_loop_plain known (mapping_nodes m) [] [] Hk Hnd (fun _ _ X => X) Hknown). reflexivity.
   Qed.
 
+  (** ---- every decoder looks at a value through [deref] ---- *)
+  Lemma deref_idem x : n_alias (deref x) = None -> deref (deref x) = deref x.
+  Proof. intros H. unfold deref at 1. now rewrite H. Qed.
+
+  Lemma dec_string_deref x : n_alias (deref x) = None -> dec_string str_ok null_ok x = dec_string str_ok null_ok (deref x).
+  Proof. intros H. unfold dec_string. now rewrite (deref_idem x H). Qed.
+
+  Lemma dec_duration_deref (dur_ok : string -> bool) x :
+    n_alias (deref x) = None -> dec_duration str_ok null_ok dur_ok x = dec_duration str_ok null_ok dur_ok (deref x).
+  Proof. intros H. unfold dec_duration. now rewrite (deref_idem x H), (dec_string_deref x H). Qed.
+
+  Lemma dec_fields_deref known x :
+    n_alias (deref x) = None -> dec_fields str_ok null_ok known x = dec_fields str_ok null_ok known (deref x).
+  Proof. intros H. unfold dec_fields. now rewrite (deref_idem x H). Qed.
+
+  Lemma dec_strmap_deref x : n_alias (deref x) = None -> dec_strmap str_ok null_ok x = dec_strmap str_ok null_ok (deref x).
+  Proof. intros H. unfold dec_strmap. now rewrite (dec_fields_deref None x H). Qed.
+
   (** ---- values ---- *)
-  Definition str_val (x : node) : string := if String.eqb (n_tag x) nullTag then "" else n_value x.
+  Definition str_val (x : node) : string := if String.eqb (n_tag (deref x)) nullTag then "" else n_value (deref x).
+
+  (** a label / annotation value: a plain scalar, or an alias of one *)
+  Definition leaf_scalar (x : node) : Prop := exists t, sees x t /\ plain_node t /\ n_kind t = KScalar.
+
+  Lemma plain_leaf_scalar x : plain_node x -> n_kind x = KScalar -> leaf_scalar x.
+  Proof. intros Hp K. exists x. split; [apply sees_self; exact (proj1 Hp)|auto]. Qed.
 
   Lemma dec_string_scalar x :
     plain_node x -> n_kind x = KScalar ->
@@ -205,20 +303,22 @@ Section Prom.
 
   (** map[string]string from a plain mapping whose keys are good and whose values are plain scalars *)
   Lemma strmap_values_plain : forall ps : list (node * node),
-    (forall k x, In (k, x) ps -> plain_node x /\ n_kind x = KScalar) ->
+    (forall k x, In (k, x) ps -> leaf_scalar x) ->
     strmap_values str_ok null_ok (map (fun kv => (key_text kv, snd kv)) ps) =
     Some (map (fun kv => (key_text kv, str_val (snd kv))) ps).
   Proof.
     induction ps as [|[k x] r IH]; intros H; cbn [map strmap_values key_text fst snd]; [reflexivity|].
-    destruct (H k x (or_introl eq_refl)) as [Hp Hk].
-    rewrite (dec_string_scalar x Hp Hk), (IH (fun k0 x0 H0 => H k0 x0 (or_intror H0))).
-    unfold str_val. destruct Hp as [Ha _]. rewrite (deref_plain x Ha).
-    destruct (String.eqb (n_tag x) nullTag); reflexivity.
+    destruct (H k x (or_introl eq_refl)) as (t & Hs & Hp & Hk).
+    destruct (sees_deref x t Hs) as [Hd Ht].
+    assert (Ha : n_alias (deref x) = None) by now rewrite Hd.
+    rewrite (dec_string_deref x Ha), Hd, (dec_string_scalar t Hp Hk), (IH (fun k0 x0 H0 => H k0 x0 (or_intror H0))).
+    unfold str_val. rewrite Hd.
+    destruct (String.eqb (n_tag t) nullTag); reflexivity.
   Qed.
 
   Lemma dec_strmap_plain v :
     plain_node v -> n_kind v = KMapping -> good_keys (mapping_nodes v) ->
-    (forall k x, In (k, x) (mapping_nodes v) -> plain_node x /\ n_kind x = KScalar) ->
+    (forall k x, In (k, x) (mapping_nodes v) -> leaf_scalar x) ->
     dec_strmap str_ok null_ok v = DOk (map (fun kv => (key_text kv, str_val (snd kv))) (mapping_nodes v)).
   Proof.
     intros Hp K Hg Hv. unfold dec_strmap.
